@@ -1,6 +1,7 @@
 CONSTANTS
   MaxHeadings = 4
   MaxLevel = 4
+  VariantSet = {1, 2, 3, 4, 5, 6}
 INIT Init
 NEXT Next
 INVARIANT IndentNestingIsLevelNesting
